@@ -29,6 +29,8 @@ def varTyIn (v : String) : CExpr → Option CT
   | .call _ args _ _ => varTyInL v args
   | .stmtexpr _ _ e => varTyIn v e
   | .seqexpr _ _ args _ val => (varTyInL v args).orElse (fun _ => varTyIn v val)
+  | .callx _ _ args _ _ => varTyInL v args
+  | .xmacro _ _ _ => none
 def varTyInL (v : String) : List CExpr → Option CT
   | [] => none
   | a :: as => (varTyIn v a).orElse (fun _ => varTyInL v as)
